@@ -8,14 +8,6 @@ Definition opt_str_eqb (a b : option str) : bool :=
   match a, b with Some x, Some y => str_eqb x y | None, None => true | _, _ => false end.
 Fixpoint strs_eqb (a b : list str) : bool :=
   match a, b with [], [] => true | x :: xs, y :: ys => str_eqb x y && strs_eqb xs ys | _, _ => false end.
-Definition fmt_eqb (a b : fmt) : bool :=
-  match a, b with
-  | FNone, FNone => true
-  | FNumber x, FNumber y | FDate x, FDate y | FTime x, FTime y => x =? y
-  | FDateTime a1 a2, FDateTime b1 b2 | FList a1 a2, FList b1 b2 => (a1 =? b1) && (a2 =? b2)
-  | FCurrency w c, FCurrency w' c' => (w =? w') && str_eqb c c'
-  | _, _ => false
-  end.
 Definition lit_eqb (a b : lit) : bool :=
   match a, b with
   | LStr x, LStr y | LFloat x, LFloat y => str_eqb x y
